@@ -654,7 +654,11 @@ RunResult WorldT::execute(json const& plan) const
             double di = 1e-5;  // FieldDriverOptions default [cm]
             if (plan["problem"]["along"].contains("driver"))
                 di = plan["problem"]["along"]["driver"].value("delta_intersection", di);
+            double es = 1e-5;  // epsilon_step default
+            if (plan["problem"]["along"].contains("driver"))
+                es = plan["problem"]["along"]["driver"].value("epsilon_step", es);
             oo.field_disp_tol = 2 * di;
+            oo.field_rel_tol = es;
         }
         check_history(ex.hist, *prob, oo, rr);
         history_shape(ex.hist, rr);
